@@ -39,6 +39,9 @@ HEADER = ("From Coq Require Import ZArith List Bool String.\n"
           "Definition ob (b : bool) : Z := if b then 1 else 0.\n")
 
 
+_MY_CASES = []
+
+
 def cq(s):
     s = str(s)
     if any(ord(c) < 32 or ord(c) > 126 for c in s):
@@ -65,7 +68,8 @@ def eval_Z_lists(prefix, exprs, per_file=400, header=HEADER):
         chunk = exprs[k:k + per_file]
         body = header + "Definition cases : list (list Z) :=\n [" + ";\n  ".join(chunk) + "].\n" \
             "Eval vm_compute in cases.\n"
-        files.append(("%s_%03d" % (prefix, k // per_file), body))
+        files.append(("%s_p%d_%03d" % (prefix, os.getpid(), k // per_file), body))
+    _MY_CASES.extend(n for n, _ in files)
     res = common.run_cases_parallel(files)
     out = []
     for (name, _), k in zip(files, range(0, len(exprs), per_file)):
@@ -166,8 +170,24 @@ def norm_items(items, p0):
 # workers (run inside gasol.pmap)
 
 def _w_init(opts):
-    p = gasol.setup_process(opts)
-    return {"p": p, "files": {}}
+    import global_params.constants as constants
+    st = {"files": {}, "split0": set(constants.split_block), "opts": None, "p": None}
+    if opts is not None:
+        _w_config(st, opts)
+    return st
+
+
+def _w_config(state, opts):
+    """(re)configure this worker process for an option set, as execute_gasol would at start-up"""
+    import global_params.constants as constants
+    if state["opts"] == list(opts):
+        return
+    if state["p"] is not None:
+        gasol.cleanup_process()
+    constants.split_block = set(state["split0"])
+    state["p"] = gasol.setup_process(opts)
+    state["opts"] = list(opts)
+    state["files"] = {}          # blocks are parsed under the PUSH0 setting of the option set
 
 
 def _blocks_of_item(state, item):
@@ -195,6 +215,9 @@ def _blocks_of_item(state, item):
 
 def _w_chunk(state, item):
     import gasol_asm
+    if item[0] == "cfg":         # ("cfg", opts, real item): one pool serves all option sets
+        _w_config(state, item[1])
+        item = item[2]
     p = state["p"]
     decisions = []
     orig = gasol_asm.block_has_been_optimized
@@ -489,7 +512,7 @@ def arity_fn():
     return ar
 
 
-def real_outputs(run, rng, configs, n_contract, n_gen, chunk=8, timeout=150, label="greedy"):
+def real_outputs(run, rng, configs, n_contract, n_gen, chunk=4, timeout=150, label="greedy", extra_texts=(), collect=None):
     """Runs the pipeline and checks the property on the outputs. configs: list of (crit, split, extra opts)."""
     path = os.path.join(common.REPO, CONTRACT)
     with open(path) as fh:
@@ -513,7 +536,7 @@ def real_outputs(run, rng, configs, n_contract, n_gen, chunk=8, timeout=150, lab
             cur = ["file", path, sec, i, i + 1]
     if cur:
         items.append(tuple(cur))
-    texts = corpus_blocks() + [gen_block(rng) for _ in range(n_gen)]
+    texts = list(extra_texts) + corpus_blocks() + [gen_block(rng) for _ in range(n_gen)]
     for k in range(0, len(texts), chunk):
         items.append(("plain", texts[k:k + chunk]))
     ar = arity_fn()
@@ -521,6 +544,8 @@ def real_outputs(run, rng, configs, n_contract, n_gen, chunk=8, timeout=150, lab
              "strict": 0, "tie_accepted": 0, "by_config": {}, "sizes": {}}
     evals = 0
     distinct = set()
+    # phase A: pipelines, one clean pool per option set
+    per_cfg = []
     for crit, split, extra in configs:
         opts = list(extra) + CRITERIA[crit] + SPLITS[split]
         p0 = "-push0" not in opts
@@ -534,8 +559,14 @@ def real_outputs(run, rng, configs, n_contract, n_gen, chunk=8, timeout=150, lab
             stats["exc"] += len(val["blocks"]) - len(good)
             chunks.append((good, val["totals"], len(good) == len(val["blocks"])))
             recs += good
-        # Coq: reference prices + hand model of AsmBlock.gas_spent / generated sizes on old and new
-        exprs = []
+        per_cfg.append((crit, split, opts, p0, recs, chunks))
+        if collect is not None:
+            collect.append((opts, recs))
+        run.log("%s/%s/%s: pipeline done on %d blocks" % (label, crit, split, len(recs)))
+    # phase B: Coq (one parallel batch): reference prices + hand model of AsmBlock.gas_spent / generated sizes on old
+    # and new; generated block_has_been_optimized on the measures of every accept decision
+    exprs, dexprs = [], []
+    for crit, split, opts, p0, recs, chunks in per_cfg:
         for r in recs:
             ro, rn = ref_instrs(r["old"], ar), ref_instrs(r["new"], ar)
             r["same"] = norm_items(r["old"], p0) == norm_items(r["new"], p0)
@@ -546,15 +577,23 @@ def real_outputs(run, rng, configs, n_contract, n_gen, chunk=8, timeout=150, lab
                       "oz (AsmBlock_gas_spent %s %s)" % (cb(p0), coq_items(its)), "oz (block_size %s %s)" % (cb(p0), coq_items(its)),
                       "block_length %s" % coq_items(its)]
             exprs.append("[" + "; ".join(e) + "]")
+            for (o, n, c, res_) in r["decisions"]:
+                dexprs.append("[ob (block_has_been_optimized (bv %d %d %d) (bv %d %d %d) %s)]" % (*o, *n, cq(c)))
+    allgot = eval_Z_lists("c08_out_%s" % label, exprs, per_file=80)
+    alldgot = eval_Z_lists("c08_dec_%s" % label, dexprs, per_file=500) if dexprs else []
+    evals += len(exprs) * 12 + len(dexprs)
+    gi = di = 0
+    # phase C: checks
+    for crit, split, opts, p0, recs, chunks in per_cfg:
+        got = allgot[gi:gi + len(recs)]
+        gi += len(recs)
         dec = []
         for r in recs:
             for (o, n, c, res_) in r["decisions"]:
                 dec.append((o, n, c, res_, r))
-        dexprs = ["[ob (block_has_been_optimized (bv %d %d %d) (bv %d %d %d) %s)]" % (*o, *n, cq(c)) for o, n, c, _, _ in dec]
-        got = eval_Z_lists("c08_out_%s_%s_%s" % (label, crit, split), exprs, per_file=60)
-        dgot = eval_Z_lists("c08_dec_%s_%s_%s" % (label, crit, split), dexprs, per_file=400) if dexprs else []
-        evals += len(exprs) * 12 + len(dexprs)
-        cfg = "%s/%s/%s" % (label, crit, split)
+        dgot = alldgot[di:di + len(dec)]
+        di += len(dec)
+        cfg = "%s/%s/%s%s" % (label, crit, split, "/push0-disabled" if not p0 else "")
         cst = stats["by_config"].setdefault(cfg, {"blocks": 0, "changed": 0, "saved": 0})
         for r, g in zip(recs, got):
             stats["blocks"] += 1
@@ -610,7 +649,7 @@ def real_outputs(run, rng, configs, n_contract, n_gen, chunk=8, timeout=150, lab
                 ssz = sum(o[0] - n[0] for o, n in acc)
                 sln = sum(o[2] - n[2] for o, n in acc)
                 if (ssz, sln) != (r["g_old"][1] - r["g_new"][1], r["g_old"][2] - r["g_new"][2]):
-                    report_once(run, {"kind": "rows-do-not-add-up"},
+                    report_once(run, {"kind": "rows-do-not-add-up", "cause": cause_of(r, p0)},
                                "accepted sub-block savings (size %d, length %d) differ from the block's (%d, %d) on %s"
                                % (ssz, sln, r["g_old"][1] - r["g_new"][1], r["g_old"][2] - r["g_new"][2], replay["plain_old"][:160]),
                                replay, found_input=True)
@@ -646,6 +685,9 @@ def real_outputs(run, rng, configs, n_contract, n_gen, chunk=8, timeout=150, lab
                 else:
                     stats["tie_accepted"] += 1
                 if not py_improves(c, dgs, dss, dls):
+                    stats["accepted_against_predicate_real"] = stats.get("accepted_against_predicate_real", 0) + 1
+                    run.add_sample({"accepted_against_predicate": " ".join(plain_of(r["old"]))[:200], "criterion": c,
+                                    "savings_gas_size_length": [dgs, dss, dls]}, cap=12)
                     report_once(run, {"kind": "accept-ignores-length", "criterion": c, "level": "sub-block"},
                                "sub-block accepted although the property's predicate fails (%s): savings gas %d size %d length %d in %s"
                                % (c, dgs, dss, dls, " ".join(plain_of(r["old"]))[:160]),
@@ -663,6 +705,20 @@ def real_outputs(run, rng, configs, n_contract, n_gen, chunk=8, timeout=150, lab
                            {"kind": "totals", "opts": opts, "blocks": [r["old"] for r in good]}, found_input=True)
         run.log("%s: %d blocks, %d changed, saved %s=%d" % (cfg, cst["blocks"], cst["changed"], crit, cst["saved"]))
     return evals, distinct, stats
+
+
+def clean_my_cases():
+    """remove only this check's case files (coq/Cases is shared with the other checks)"""
+    d = os.path.join(common.COQ, "Cases")
+    mine = set(_MY_CASES)
+    if os.path.isdir(d):
+        for f in os.listdir(d):
+            base = f.lstrip(".").split(".")[0]
+            if base in mine:
+                try:
+                    os.remove(os.path.join(d, f))
+                except OSError:
+                    pass
 
 
 def report_once(run, key, what, replay, found_input=True):
@@ -700,6 +756,8 @@ def cause_of(r, p0):
         return "table:MCOPY"
     if "SHA3" in names:
         return "table:SHA3"
+    if p0 and any(d == "PUSH" and v != "0" and int(v, 16) == 0 for d, v in r["old"]):
+        return "noncanonical-zero-value"      # PUSHn 0x00 in plain-text input keeps the value string "00"
     spell = {(d, v) for d, v in r["old"] + r["new"] if d == "PUSH0" or (d == "PUSH" and v == "0")}
     touch = names & {"SLOAD", "SSTORE", "BALANCE", "EXTCODESIZE", "EXTCODEHASH", "EXTCODECOPY"}
     if p0 and touch and ("PUSH0", None) in spell:
@@ -782,11 +840,11 @@ def check(run):
     evals += nvals
     configs = [(c, s, ["-greedy"]) for c in CRITERIA for s in SPLITS]
     if run.tier == "quick":
-        e, distinct, st = real_outputs(run, rng, configs, n_contract=150, n_gen=90)
+        e, distinct, st = real_outputs(run, rng, configs, n_contract=200, n_gen=100)
     else:
-        e, distinct, st = real_outputs(run, rng, configs, n_contract=100000, n_gen=600)
+        e, distinct, st = real_outputs(run, rng, configs, n_contract=100000, n_gen=400, timeout=45)
         cfg2 = [(c, "default", ["-ub-greedy", "-solver", "z3", "-tout", "2"]) for c in CRITERIA]
-        e2, d2, st2 = real_outputs(run, random.Random(run.seed + 1), cfg2, n_contract=48, n_gen=48, chunk=4, timeout=400, label="ub-greedy-z3")
+        e2, d2, st2 = real_outputs(run, random.Random(run.seed + 1), cfg2, n_contract=40, n_gen=40, chunk=4, timeout=240, label="ubgreedy_z3")
         e += e2
         distinct |= d2
         for k in ("blocks", "changed", "reverted", "exc", "lost_chunks", "decisions", "accepted", "strict", "tie_accepted"):
@@ -800,7 +858,7 @@ def check(run):
                        "differs from the input. Blocks: shipped contract %s (random subset in quick), corpus/C08, generated "
                        "(stack-consistent random sequences over arithmetic/env/memory/storage/account opcodes with boundary constants)" % CONTRACT)
     run.cov["distribution"] = st
-    common.clean_cases()
+    clean_my_cases()
 
 
 # --------------------------------------------------------------------------------------------
